@@ -1,5 +1,5 @@
 """property id -> check function(prop, tier) -> exit code, plus the metadata bin/mkmanifest writes into MANIFEST.json"""
-import frame, keytree, calltracer, codec, precomp, cancun, steptrace
+import frame, keytree, calltracer, codec, precomp, cancun, steptrace, instances
 
 FRAME_NOTE = ("Trusted: TLC 1.8; go-ethereum v1.12.0's StateDB as world state; the scenario compiler (harness/scn) that turns model "
               "instructions into byte code; join-point failures are injected at provider level (GetTxBondAspects error) except where real WASM "
@@ -102,6 +102,19 @@ META = {
                       "from/to/input/value, output) must equal the reference's at the same position; struct logger, access-list, prestate (plain and diff), 4byte, call and "
                       "flat-call tracers are attached on both sides and their outputs compared; balance of enter/exit under join-point aborts is decided by the frame machine (EvBalanced, C04/C05 scenarios)."),
                 note="Trusted: TLC; go-ethereum v1.12.0 from the module cache as the reference implementation; both sides run on go-ethereum's StateDB prepared identically; the recorder hashes byte strings and clamps magnitudes, nothing else. A defect shared with the reference is invisible. Sampled (seeded), not exhaustive, except the opcode x operand-class matrix."),
+    "C16": dict(fn=instances.check, engine="instances", design_ref="3.6, 6 C16", replay="see the cmd field of {path}",
+                technique="TLC model checking of Instances.tla (Determinism, Isolation) + replay of TLC interleavings on real EVM instances + repeated solo runs compared byte for byte",
+                text=("Each configuration (extra EIPs x transaction) is executed several times in fresh EVMs on equal pre-states, interleaved with the other configurations and "
+                      "with concurrent instances following TLC-generated schedules; a digest of return data, gas, state root, logs, call tree and every journal query "
+                      "including the order of ChildrenIndices/Children/IndicesOfChanges must be identical across repetitions and equal to the solo digest."),
+                note="Trusted: TLC; Go's map iteration randomisation as the source of order nondeterminism (3 children per key, 5/50 repetitions). Sampled interleavings (every 20th / every 2nd)."),
+    "C17": dict(fn=instances.check, engine="instances", design_ref="3.6, 6 C17", replay="see the cmd field of {path}",
+                technique="TLC model checking of Instances.tla (safety + liveness under fairness) + schedule replay on real EVM instances in gated goroutines (+ race detector, thorough)",
+                text=("SharedImmutable, Isolation, PoolHygiene, CancelOnlyOwn, CancelStops are model-checked on the construction protocol (pick / copy iff extra EIPs / enable) with "
+                      "deviation switches that each yield a counterexample; CancelLive is checked under weak fairness; TLC's interleavings of construct/step/cancel for two "
+                      "instances are forced on real EVMs (a probe opcode enabled only by one instance's extra EIP must stay invalid in the other), Cancel is injected at every "
+                      "position, results must equal solo results, frames must start with empty stacks, bookkeeping must be closed; free-running rounds add real parallelism."),
+                note="Trusted: TLC; the gating tracer. Absence of data races is observed with `go build -race` in the thorough tier on the schedules that ran, not proved."),
 }
 
 CHECKS = {p: m["fn"] for p, m in META.items()}
